@@ -119,7 +119,7 @@ theorem divCeilI128_pos (prof : Profile) (x y : Int) (hx : fitsI128 x = true) (h
       congr 1; omega
 
 /-- `10^p` for `p ≤ 18` is a positive i128 -/
-theorem pow10_le_max {p : Nat} (h : p ≤ 18) : (10 : Int) ^ p ≤ I128_MAX := by
+theorem pow10_le_max_u {p : Nat} (h : p ≤ 18) : (10 : Int) ^ p ≤ I128_MAX := by
   have := pow10_mono h
   have e : (10 : Int) ^ 18 = 1000000000000000000 := by decide
   unfold I128_MAX; omega
